@@ -103,18 +103,25 @@ def SCP.countL (L : SCP) : Int :=
 def SCP.countUdiag (L : SCP) : Int :=
   L.sn.foldl (fun acc s => acc + ((List.range (s.e - s.f)).map (fun (k : Nat) => ((k : Int) + 1))).sum) 0
 
-/-- the five conjuncts of `SCP.wf`, separately (diagnostics for replay files) -/
+/-- every column lies inside the supernode its `col_to_sup` entry names -/
+def SCP.colsCovered (L : SCP) : Bool :=
+  (List.range L.n).all fun j =>
+    let s := geti L.colToSup j
+    decide (0 ≤ s) && decide (s.toNat < L.sn.size) &&
+      decide ((L.sn.getD s.toNat default).f ≤ j) && decide (j < (L.sn.getD s.toNat default).e)
+
+/-- the conjuncts of `SCP.wf`, separately (diagnostics for replay files) -/
 def SCP.wfParts (L : SCP) : List Bool :=
   [L.partitionOk, L.sn.all (fun s => s.wf L.n),
    disjointExtents (L.sn.toList.map fun s => (s.rowBeg, (s.rows.size : Int))),
    disjointExtents (L.sn.toList.map fun s => (geti s.nzBeg 0, ((s.rows.size * (s.e - s.f) : Nat) : Int))),
-   L.nnz == L.countL, L.depOrderOk]
+   L.nnz == L.countL, L.depOrderOk, L.colsCovered]
 
 def SCP.wf (L : SCP) : Bool :=
   L.partitionOk && L.sn.all (fun s => s.wf L.n)
   && disjointExtents (L.sn.toList.map fun s => (s.rowBeg, (s.rows.size : Int)))
   && disjointExtents (L.sn.toList.map fun s => (geti s.nzBeg 0, ((s.rows.size * (s.e - s.f) : Nat) : Int)))
-  && L.nnz == L.countL && L.depOrderOk
+  && L.nnz == L.countL && L.depOrderOk && L.colsCovered
 
 /-- first column of the supernode containing column `j` -/
 def SCP.fsupc (L : SCP) (j : Nat) : Nat := (L.sn.getD (geti L.colToSup j).toNat default).f
